@@ -99,13 +99,35 @@ Inductive slash := SOff | SOn | SNoDecode.
 Definition slash_eqb (a b : slash) : bool :=
   match a, b with SOff, SOff | SOn, SOn | SNoDecode, SNoDecode => true | _, _ => false end.
 
+(** [encodedSlashProtector.Replace] = strings.NewReplacer("%2F", marker, "%2f", marker): one pass,
+    left to right, non-overlapping ([skip] = bytes of an occurrence still to be dropped) *)
+Fixpoint protect2_aux (skip : nat) (s : string) : string :=
+  match s with
+  | EmptyString => EmptyString
+  | String c r =>
+    match skip with
+    | S k => protect2_aux k r
+    | O => if prefix "%2F" s || prefix "%2f" s then (marker ++ protect2_aux 2 r)%string
+           else String c (protect2_aux O r)
+    end
+  end.
+
+(** [fx7]: the repair of C03-F7 / C08-F2 (commit a779db8): both spellings of an encoded slash are
+    recognised.  [false] is the pinned tree: only "%2F". *)
+Definition protect (fx7 : bool) (v : string) : string :=
+  if fx7 then protect2_aux O v else replace_all v "%2F" marker.
+
+(** [containsEncodedSlash] (pinned: strings.Contains(path, "%2F")) *)
+Definition contains_enc_slash (fx7 : bool) (p : string) : bool :=
+  contains "%2F" p || (fx7 && contains "%2f" p).
+
 (** the "keep %2F" decoding used by [unescape] and by [pathParamMatcher] *)
-Definition nd_unescape (v : string) : string :=
-  replace_all (path_unescape (replace_all v "%2F" marker)) marker "%2F".
+Definition nd_unescape (fx7 : bool) (v : string) : string :=
+  replace_all (path_unescape (protect fx7 v)) marker "%2F".
 
 (** rule_impl.go [unescape] *)
-Definition unescape (v : string) (h : slash) : string :=
-  match h with SOn => path_unescape v | _ => nd_unescape v end.
+Definition unescape (fx7 : bool) (v : string) (h : slash) : string :=
+  match h with SOn => path_unescape v | _ => nd_unescape fx7 v end.
 
 (* ------------------------------------------------------------------ createMethodMatcher *)
 
@@ -231,7 +253,7 @@ Definition hosts_match (eng : engine) (hs : list tmdef) (q : request) : bool :=
   forallb (fun h => tm_match eng true h (q_host q)) hs.
 
 (** pathParamMatcher.Matches *)
-Definition param_match (eng : engine) (sl : slash) (q : request) (keys vals : list string) (p : param) : mres :=
+Definition param_match (fx7 : bool) (eng : engine) (sl : slash) (q : request) (keys vals : list string) (p : param) : mres :=
   match index_of (pp_name p) keys with
   | None => MNo
   | Some i =>
@@ -240,28 +262,28 @@ Definition param_match (eng : engine) (sl : slash) (q : request) (keys vals : li
     | Some v =>
       if String.eqb (q_rawpath q) "" then of_bool (tm_match eng false (pp_tm p) v) else
       match sl with
-      | SOff => if contains "%2F" (q_rawpath q) then MNo else of_bool (tm_match eng false (pp_tm p) v)
+      | SOff => if contains_enc_slash fx7 (q_rawpath q) then MNo else of_bool (tm_match eng false (pp_tm p) v)
       | SOn => of_bool (tm_match eng false (pp_tm p) (path_unescape v))
-      | SNoDecode => of_bool (tm_match eng false (pp_tm p) (nd_unescape v))
+      | SNoDecode => of_bool (tm_match eng false (pp_tm p) (nd_unescape fx7 v))
       end
     end
   end.
 
-Fixpoint params_match (eng : engine) (sl : slash) (q : request) (keys vals : list string) (ps : list param) : mres :=
+Fixpoint params_match (fx7 : bool) (eng : engine) (sl : slash) (q : request) (keys vals : list string) (ps : list param) : mres :=
   match ps with
   | [] => MYes
-  | p :: r => match param_match eng sl q keys vals p with
-              | MYes => params_match eng sl q keys vals r
+  | p :: r => match param_match fx7 eng sl q keys vals p with
+              | MYes => params_match fx7 eng sl q keys vals r
               | x => x
               end
   end.
 
 (** compositeMatcher{sm, mm, hm, ppm}.Matches — in this order, first failure wins *)
-Definition route_matches (eng : engine) (m : cmatcher) (q : request) (keys vals : list string) : mres :=
+Definition route_matches (fx7 : bool) (eng : engine) (m : cmatcher) (q : request) (keys vals : list string) : mres :=
   if negb (scheme_match (cm_scheme m) q) then MNo else
   if negb (method_match (cm_methods m) q) then MNo else
   if negb (hosts_match eng (cm_hosts m) q) then MNo else
-  params_match eng (cm_slash m) q keys vals (cm_params m).
+  params_match fx7 eng (cm_slash m) q keys vals (cm_params m).
 
 (* ------------------------------------------------------------------ radix tree: Add *)
 
@@ -494,7 +516,7 @@ Fixpoint find_node (fx2 fx5 : bool) (m : nat -> list string -> list string -> mr
                            (if fx2 then caps1 ++ [path] else caps1) (t_values c) with
           | (None, cs3) => (FPanic, cs1 ++ cs2 ++ cs3)
           | (Some (Some v), cs3) => (FRes (Some (t_keys c, v)) (caps1 ++ [path]) false, cs1 ++ cs2 ++ cs3)
-          | (Some None, cs3) => (FRes None caps1 (t_bt n), cs1 ++ cs2 ++ cs3)
+          | (Some None, cs3) => (FRes None caps1 (t_bt c), cs1 ++ cs2 ++ cs3)   (* after the repair of C02-F1: the catch-all child's own flag *)
           end
         end
       end
@@ -586,10 +608,10 @@ Definition load (ds : list ruledef) : loaded :=
 Definition lookup_path (q : request) : string :=
   if String.eqb (q_rawpath q) "" then q_path q else q_rawpath q.
 
-Definition matcher_of (eng : engine) (es : list centry) (q : request) : nat -> list string -> list string -> mres :=
+Definition matcher_of (fx7 : bool) (eng : engine) (es : list centry) (q : request) : nat -> list string -> list string -> mres :=
   fun vid keys vals =>
     match nth_error es vid with
-    | Some e => route_matches eng (ce_m e) q keys vals
+    | Some e => route_matches fx7 eng (ce_m e) q keys vals
     | None => MNo
     end.
 
@@ -614,22 +636,22 @@ Inductive outcome :=
 | ONone
 | ORule (rule : nat) (captures : list (string * string)) (exec_rejected : bool).
 
-Definition execute (sl : slash) (q : request) (caps : list (string * string)) : list (string * string) * bool :=
+Definition execute (fx7 : bool) (sl : slash) (q : request) (caps : list (string * string)) : list (string * string) * bool :=
   match sl with
-  | SOff => if contains "%2F" (q_rawpath q) then (caps, true)
-            else (map (fun kv => (fst kv, unescape (snd kv) sl)) caps, false)
-  | _ => (map (fun kv => (fst kv, unescape (snd kv) sl)) caps, false)
+  | SOff => if contains_enc_slash fx7 (q_rawpath q) then (caps, true)
+            else (map (fun kv => (fst kv, unescape fx7 (snd kv) sl)) caps, false)
+  | _ => (map (fun kv => (fst kv, unescape fx7 (snd kv) sl)) caps, false)
   end.
 
-Definition serve (fx2 fx5 : bool) (eng : engine) (es : list centry) (t : tree) (q : request) : outcome * list call :=
-  match tree_find fx2 fx5 (matcher_of eng es q) t (lookup_path q) with
+Definition serve (fx2 fx5 fx7 : bool) (eng : engine) (es : list centry) (t : tree) (q : request) : outcome * list call :=
+  match tree_find fx2 fx5 (matcher_of fx7 eng es q) t (lookup_path q) with
   | (LPanic, cs) => (OPanic, cs)
   | (LNone, cs) => (ONone, cs)
   | (LFound vid params, cs) =>
     match nth_error es vid with
     | None => (OPanic, cs)
     | Some e =>
-      let '(caps, rej) := execute (cm_slash (ce_m e)) q (map_of params) in
+      let '(caps, rej) := execute fx7 (cm_slash (ce_m e)) q (map_of params) in
       (ORule (ce_rule e) caps rej, cs)
     end
   end.
